@@ -171,6 +171,135 @@ let show_call_result = function
 
 let std_parse (sg : n) (e : z) : f64 = dec_to_f64 sg e
 
+(* ---- serde ops ---- *)
+type nty = NB | NI of bool * int | NF32 | NF64 | NC | NS | NBy | NU | NO of nty | NSeq of nty | NSet of nty
+         | NT of nty list | NM of nty * nty | NR of (n list * nty) list | NN of nty | NE of (n list * nvar) list
+and nvar = NVU | NVN of nty | NVT of nty list | NVS of (n list * nty) list
+
+let num_suffix s k = int_of_string (String.sub s k (String.length s - k))
+let rec read_nty (t : toks) : nty =
+  let s = next t in
+  match s with
+  | "b" -> NB | "f32" -> NF32 | "f64" -> NF64 | "c" -> NC | "s" -> NS | "B" -> NBy | "U" -> NU
+  | "O" -> NO (read_nty t) | "S" -> NSeq (read_nty t) | "H" -> NSet (read_nty t) | "N" -> NN (read_nty t)
+  | "M" -> let k = read_nty t in let v = read_nty t in NM (k, v)
+  | _ ->
+    (match s.[0] with
+     | 'i' -> NI (true, num_suffix s 1)
+     | 'u' -> NI (false, num_suffix s 1)
+     | 'T' -> NT (List.init (num_suffix s 1) (fun _ -> read_nty t))
+     | 'R' -> NR (List.init (num_suffix s 1) (fun _ -> let nm = bytes_of_hex (next t) in let ty = read_nty t in (nm, ty)))
+     | 'E' -> NE (List.init (num_suffix s 1) (fun _ -> let nm = bytes_of_hex (next t) in let v = read_nvar t in (nm, v)))
+     | _ -> failwith ("bad ty " ^ s))
+and read_nvar (t : toks) : nvar =
+  let s = next t in
+  if s = "vu" then NVU else if s = "vn" then NVN (read_nty t)
+  else if String.sub s 0 2 = "vt" then NVT (List.init (num_suffix s 2) (fun _ -> read_nty t))
+  else NVS (List.init (num_suffix s 2) (fun _ -> let nm = bytes_of_hex (next t) in let ty = read_nty t in (nm, ty)))
+
+let rec model_ty (n : nty) : ty =
+  match n with
+  | NB -> TyBool | NI (s, b) -> TyInt (s, n_of_int b) | NF32 -> TyF32 | NF64 -> TyF64 | NC -> TyChar | NS -> TyString
+  | NBy -> TyByteBuf | NU -> TyUnit | NO x -> TyOption (model_ty x) | NSeq x | NSet x -> TySeq (model_ty x)
+  | NT l -> TyTuple (List.map model_ty l) | NM (k, v) -> TyMap (model_ty k, model_ty v)
+  | NR fs -> TyStruct (List.map (fun (nm, x) -> (nm, model_ty x)) fs) | NN x -> TyNewtype (model_ty x)
+  | NE vs -> TyEnum (List.map (fun (nm, v) -> (nm, model_var v)) vs)
+and model_var = function
+  | NVU -> VUnit | NVN x -> VNewtype (model_ty x) | NVT l -> VTuple (List.map model_ty l)
+  | NVS fs -> VStruct (List.map (fun (nm, x) -> (nm, model_ty x)) fs)
+
+let rec read_data (t : toks) : data =
+  let s = next t in
+  match s.[0] with
+  | 'b' -> DBool (s = "b1")
+  | 'i' -> DInt (z_of_dec (String.sub s 1 (String.length s - 1)))
+  | 'f' -> DF64 (f64_of_bits (n_of_hex (String.sub s 1 16)))
+  | 'c' -> DChar (n_of_hex (String.sub s 1 (String.length s - 1)))
+  | 's' -> DString (bytes_of_hex (after_colon s))
+  | 'B' -> DBytes (bytes_of_hex (after_colon s))
+  | 'U' -> DUnit
+  | '-' -> DNone
+  | '+' -> DSome (read_data t)
+  | 'L' -> DSeq (List.init (num_suffix s 1) (fun _ -> read_data t))
+  | 'T' -> DTuple (List.init (num_suffix s 1) (fun _ -> read_data t))
+  | 'M' -> DMap (List.init (num_suffix s 1) (fun _ -> let k = read_data t in let v = read_data t in (k, v)))
+  | 'R' -> DStruct (List.init (num_suffix s 1) (fun _ -> read_data t))
+  | 'N' -> DNewtype (read_data t)
+  | 'E' ->
+      let nm = bytes_of_hex (after_colon s) in
+      let p = next t in
+      let pl = if p = "pu" then PUnit else if p = "pn" then PNewtype (read_data t)
+        else if String.sub p 0 2 = "pt" then PTuple (List.init (num_suffix p 2) (fun _ -> read_data t))
+        else PStruct (List.init (num_suffix p 2) (fun _ -> read_data t)) in
+      DEnum (nm, pl)
+  | _ -> failwith ("bad data " ^ s)
+
+(* the data of type f32 is read as DF64 by read_data; retag by type *)
+let rec retag (n : nty) (d : data) : data =
+  match n, d with
+  | NF32, DF64 f -> DF32 f
+  | NO x, DSome y -> DSome (retag x y)
+  | (NSeq x | NSet x), DSeq l -> DSeq (List.map (retag x) l)
+  | NT ts, DTuple l -> (try DTuple (List.map2 retag ts l) with Invalid_argument _ -> d)
+  | NM (k, v), DMap l -> DMap (List.map (fun (a, b) -> (retag k a, retag v b)) l)
+  | NR fs, DStruct l -> (try DStruct (List.map2 (fun (_, x) y -> retag x y) fs l) with Invalid_argument _ -> d)
+  | NN x, DNewtype y -> DNewtype (retag x y)
+  | NE vs, DEnum (nm, p) ->
+      (match List.find_opt (fun (k, _) -> beq_bytes k nm) vs, p with
+       | Some (_, NVN x), PNewtype y -> DEnum (nm, PNewtype (retag x y))
+       | Some (_, NVT ts), PTuple l -> (try DEnum (nm, PTuple (List.map2 retag ts l)) with Invalid_argument _ -> d)
+       | Some (_, NVS fs), PStruct l -> (try DEnum (nm, PStruct (List.map2 (fun (_, x) y -> retag x y) fs l)) with Invalid_argument _ -> d)
+       | _ -> d)
+  | _ -> d
+
+(* canonical text of data; sets and maps sorted (maps: last entry per key wins) when [norm] *)
+let rec show_data (norm : bool) (n : nty) (d : data) : string =
+  let cat l = String.concat "" (List.map (fun x -> " " ^ x) l) in
+  match n, d with
+  | _, DBool b -> if b then "b1" else "b0"
+  | _, DInt z -> "i" ^ dec_of_z z
+  | _, DF32 f | _, DF64 f -> "f" ^ f64_hex f
+  | _, DChar c -> "c" ^ hex_of_n c
+  | _, DString s -> "s:" ^ hex_of_bytes s
+  | _, DBytes s -> "B:" ^ hex_of_bytes s
+  | _, DUnit -> "U"
+  | _, DNone -> "-"
+  | NO x, DSome y -> "+ " ^ show_data norm x y
+  | NSeq x, DSeq l -> Printf.sprintf "L%d%s" (List.length l) (cat (List.map (show_data norm x) l))
+  | NSet x, DSeq l ->
+      let items = List.map (show_data norm x) l in
+      let items = if norm then List.sort_uniq compare items else items in
+      Printf.sprintf "L%d%s" (List.length items) (cat items)
+  | NT ts, DTuple l -> Printf.sprintf "T%d%s" (List.length l) (cat (List.map2 (show_data norm) ts l))
+  | NM (k, v), DMap l ->
+      let items = List.map (fun (a, b) -> (show_data norm k a, show_data norm v b)) l in
+      let items = if norm then begin
+          let tbl = Hashtbl.create 16 in
+          List.iter (fun (a, b) -> Hashtbl.replace tbl a b) items;
+          List.sort compare (Hashtbl.fold (fun a b acc -> (a, b) :: acc) tbl [])
+        end else items in
+      Printf.sprintf "M%d%s" (List.length items) (cat (List.map (fun (a, b) -> a ^ " " ^ b) items))
+  | NR fs, DStruct l -> Printf.sprintf "R%d%s" (List.length l) (cat (List.map2 (fun (_, x) y -> show_data norm x y) fs l))
+  | NN x, DNewtype y -> "N " ^ show_data norm x y
+  | NE vs, DEnum (nm, p) ->
+      let var = match List.find_opt (fun (k, _) -> beq_bytes k nm) vs with Some (_, v) -> v | None -> NVU in
+      "E:" ^ hex_of_bytes nm ^ " " ^
+      (match var, p with
+       | _, PUnit -> "pu"
+       | NVN x, PNewtype y -> "pn " ^ show_data norm x y
+       | NVT ts, PTuple l -> Printf.sprintf "pt%d%s" (List.length l) (cat (List.map2 (show_data norm) ts l))
+       | NVS fs, PStruct l -> Printf.sprintf "ps%d%s" (List.length l) (cat (List.map2 (fun (_, x) y -> show_data norm x y) fs l))
+       | _ -> "?payload")
+  | _ -> "?data"
+
+(* `x as f32` *)
+let cast_f32 (f : f64) : f64 =
+  let bits = Int64.of_string ("0x" ^ f64_hex f) in
+  let x = Int64.float_of_bits bits in
+  let y = Int32.float_of_bits (Int32.bits_of_float x) in
+  let h = Printf.sprintf "%016Lx" (Int64.bits_of_float y) in
+  f64_of_bits (n_of_hex h)
+
 let read_prim (t : toks) : prim =
   let s = next t in
   let i = String.index s ':' in
@@ -263,6 +392,19 @@ let run_case (line : string) : string =
       let ev = read_events t in
       let st = init_state k ev in
       String.concat " ;; " (List.map show_call_result (run_history ro alpha fast_float std_parse (fuel_for ev) calls st))
+  | "ser" ->
+      let n = read_nty t in
+      ignore (next t);
+      let d = retag n (read_data t) in
+      (match ser (model_ty n) d with Some v -> string_of_value v | None -> "illtyped")
+  | "de" ->
+      let n = read_nty t in
+      ignore (next t);
+      let v = read_value t in
+      (match de cast_f32 (model_ty n) v with
+       | SOk d -> "ok " ^ show_data true n d
+       | SErr SData -> "err data"
+       | SErr SPanic -> "panic")
   | "fromf64" ->
       let f = f64_of_bits (n_of_hex (next t)) in
       (match num_from_f64 f with None -> "-" | Some n -> string_of_value (Number n))
